@@ -454,13 +454,24 @@ def active_names(nodes, acc=None):
     return acc
 
 
-def build(case, tmpdir, want_loaded=None):
+def build(case, tmpdir, want_loaded=None, ctx=None):
     """load the program with the real code; returns the REPP object.  `want_loaded`: a list that
-    receives, per loader request of `Rendered.load_texts`, the dump of what the real loader built."""
+    receives, per loader request of `Rendered.load_texts`, the dump of what the real loader built.
+    `ctx`: a dict that receives what the reuse/purity battery needs (`fresh()`: a newly constructed object
+    from the same text / the same paths; `dir`, `path`, `shared` for file-loaded programs)."""
     rd = Rendered(case)
     with warnings.catch_warnings():
         warnings.simplefilter("ignore")
         if case["via"] == "string" and not rd.files:
+            if ctx is not None:
+                def fresh_string():
+                    with warnings.catch_warnings():
+                        warnings.simplefilter("ignore")
+                        ms = {}
+                        for name, lines in rd.modules:
+                            ms[name] = REPP.from_string("\n".join(lines), name=name, modules=ms)
+                        return REPP.from_string("\n".join(rd.main), name="main", modules=ms)
+                ctx["fresh"] = fresh_string
             mods = {}
             done = []
             for name, lines in rd.modules:
@@ -484,7 +495,157 @@ def build(case, tmpdir, want_loaded=None):
         r = REPP.from_file(os.path.join(d, "main.rpp"))
         if want_loaded is not None:
             want_loaded.append(dump_loaded(r, []))
+        if ctx is not None:
+            path = os.path.join(d, "main.rpp")
+
+            def fresh_file():
+                with warnings.catch_warnings():
+                    warnings.simplefilter("ignore")
+                    return REPP.from_file(path)
+            ctx.update(fresh=fresh_file, dir=d, path=path,
+                       shared=[ln for ln in rd.main if ln.startswith("<") or (ln.startswith(">") and not ln[1:].isdigit())])
         return r
+
+
+def pieces(pat, out):
+    """maximal separator-free pieces [(a, b)] of `out`, via re.split with the separators kept"""
+    parts = re.split("(" + pat + ")", out)
+    res, p = [], 0
+    for i, part in enumerate(parts):
+        if i % 2 == 0 and part:
+            res.append((p, p + len(part)))
+        p += len(part)
+    assert p == len(out)
+    return res
+
+
+def all_ext_names(nodes, acc=None):
+    acc = set() if acc is None else acc
+    for nd in nodes:
+        if nd["k"] == "ext":
+            acc.add(nd["name"])
+        for key in ("ops", "lines"):
+            if key in nd:
+                all_ext_names(nd[key], acc)
+    return acc
+
+
+BATTERY_INPUTS = 2
+BATTERY_PATS = [None, r"[ \t]+", " ", ",", "x*"]
+
+
+def purity_battery(case, r, ctx, obs, active):
+    """REUSE / PURITY: the same REPP object is used again for apply / tokenize with several `active` sets and
+    several tokenization patterns, interleaved and returning to the first; programs loaded from files are loaded
+    again from the same paths (also after another program that shares their included / external files was
+    loaded).  Every repeated call must give what the first call gave, what a freshly constructed object gives,
+    and (tokens) what splitting the result string gives.  Returns the list of failures."""
+    fails = []
+
+    def fail(clause, detail):
+        if len(fails) < 5:
+            fails.append({"clause": clause, "detail": repr(detail)[:700]})
+    pairs = [(uncps(i), run) for i, run in zip(case["inputs"], obs["runs"])][:BATTERY_INPUTS]
+    if not pairs or any("err" in run for _, run in pairs):
+        return fails
+    inputs = [s for s, _ in pairs]
+    base = {s: (uncps(run["string"]), run["startmap"], run["endmap"]) for s, run in pairs}
+
+    def res(o, s, act):
+        x = o.apply(s, active=act)
+        return (x.string, list(x.startmap), list(x.endmap))
+
+    def go():
+        fresh = ctx["fresh"]
+        # (1) the same paths loaded again
+        if ctx.get("path"):
+            want = obs["loaded"][-1]
+            r2 = fresh()
+            if dump_loaded(r2, []) != want:
+                fail("purity: loading the same files a second time gives a different module", (want, dump_loaded(r2, [])))
+            with open(os.path.join(ctx["dir"], "other.rpp"), "w", encoding="utf-8") as f:
+                f.write("".join(x + "\n" for x in ctx["shared"]) + "!q\tq\n")
+            try:
+                REPP.from_file(os.path.join(ctx["dir"], "other.rpp"))
+            except (R.REPPError, re.error):
+                pass
+            r3 = fresh()
+            if dump_loaded(r3, []) != want:
+                fail("purity: loading the same files again after another program that shares an included or external "
+                     "file gives a different module", (want, dump_loaded(r3, [])))
+            for s in inputs:
+                if res(r3, s, active) != base[s] or res(r2, s, active) != base[s]:
+                    fail("purity: a program loaded again from the same files behaves differently", (s, base[s]))
+        # (2) one object, several active sets, interleaved and returning to the first
+        names = sorted(all_ext_names(case["prog"]))
+        sets = [list(active)]
+        for cand in (names, []):
+            if names and cand not in sets:
+                sets.append(cand)
+        first = {}
+        for act in sets + [sets[0]] + (sets[1:2] if len(sets) > 1 else []):
+            for s in inputs:
+                got = res(r, s, act)
+                key = (s, tuple(act))
+                if key not in first:
+                    first[key] = got
+                elif first[key] != got:
+                    fail("purity: a repeated apply with the same arguments on the same REPP object differs from the first",
+                         (s, act, first[key], got))
+        for s in inputs:
+            if first[(s, tuple(sets[0]))] != base[s]:
+                fail("purity: apply on the reused REPP object differs from the trace made before", (s, base[s]))
+        for act in sets:
+            f = fresh()
+            for s in inputs:
+                if res(f, s, act) != first[(s, tuple(act))]:
+                    fail("purity: the reused REPP object differs from a freshly constructed one", (s, act))
+        if names:
+            for n in names:
+                r.activate(n)
+            for s in inputs:
+                if res(r, s, None) != first[(s, tuple(names))]:
+                    fail("purity: activate() differs from passing the active set", (s, names))
+            for n in names:
+                r.deactivate(n)
+            for s in inputs:
+                if res(r, s, None) != first[(s, ())]:
+                    fail("purity: deactivate() differs from passing the empty active set", (s,))
+        # (3) tokenization patterns, interleaved and returning to the first two
+        default = r.tokenize_pattern if r.tokenize_pattern is not None else R.DEFAULT_TOKENIZER
+        tfirst = {}
+
+        def toks(o, s, p):
+            lat = o.tokenize(s, pattern=p, active=active)
+            return [(t.lnk.data[0], t.lnk.data[1], t.form) for t in lat.tokens], str(lat)
+        for p in BATTERY_PATS + BATTERY_PATS[:2]:
+            eff = default if p is None else p
+            for s in inputs:
+                got, ystr = toks(r, s, p)
+                out, sm, em = base[s]
+                want = [(a + sm[a + 1], b + em[b], out[a:b]) for a, b in pieces(eff, out)]
+                if got != want:
+                    fail("purity: tokens are not the pieces of the result string for the pattern given to THIS call",
+                         (s, p, got, want))
+                if (s, p) not in tfirst:
+                    tfirst[(s, p)] = (got, ystr)
+                elif tfirst[(s, p)] != (got, ystr):
+                    fail("purity: a repeated tokenize with the same arguments differs from the first", (s, p))
+                lat2 = r.tokenize_result(r.apply(s, active=active), pattern=eff)
+                if [(t.lnk.data[0], t.lnk.data[1], t.form) for t in lat2.tokens] != got:
+                    fail("purity: tokenize_result(apply(s), pattern) differs from tokenize(s, pattern)", (s, p))
+        f = fresh()
+        for p in reversed(BATTERY_PATS):
+            for s in inputs:
+                if toks(f, s, p) != tfirst[(s, p)]:
+                    fail("purity: tokenize on the reused REPP object differs from a freshly constructed one", (s, p))
+    try:
+        with warnings.catch_warnings():
+            warnings.simplefilter("ignore")
+            with_timeout(6.0, go)
+    except Timeout:
+        pass
+    return fails
 
 
 # ---- the loaded module, unexpanded (calls by name, group and module tables) — the shape of the loader model
@@ -642,12 +803,13 @@ def jstep(st, rule_id, mask_id):
             "sm": list(st.startmap), "em": list(st.endmap)}
 
 
-def observe(case, tmpdir, want_tokens=True):
+def observe(case, tmpdir, want_tokens=True, battery=True):
     """Everything both checks look at, from the real code.  Returns a dict:
     load / tree / runs[...] with steps, string, maps, applysame, shown, tokens, yy, reparsed, eng, seps"""
     loaded = []
+    ctx = {}
     try:
-        r = build(case, tmpdir, loaded)
+        r = build(case, tmpdir, loaded, ctx)
     except (re.error, R.REPPError, IndexError, ValueError) as e:
         return {"err": err_name(e)}
     rule_id = {}
@@ -725,6 +887,7 @@ def observe(case, tmpdir, want_tokens=True):
             run["yysame"] = (back == lat)
             run["seps"] = [[m.start(), m.end()] for m in re.finditer(pat, res.string)]
         obs["runs"].append(run)
+    obs["purity"] = purity_battery(case, r, ctx, obs, active) if battery else []
     return obs
 
 
@@ -977,6 +1140,105 @@ def strip_obs(obs):
     return out
 
 
+# ---- pins (source constants the models mirror), shared by C13 and C14
+
+def _is_message(c):
+    import re as _re
+    return bool("%" in c or _re.search(r"[A-Za-z]{2,} [A-Za-z(]{2,}", c) or c.endswith((": ", ": #", ": !")))
+
+
+def pin_consts(fn):
+    """string/number/bool constants of a function's code object (nested code objects included, in order);
+    None, docstrings, log formats and exception message texts are dropped; tuples are written as '(a,b)'"""
+    import types
+    fn = getattr(fn, "__func__", fn)
+    doc = fn.__doc__
+
+    def walk(code):
+        out = []
+        for c in code.co_consts:
+            if c is None:
+                continue
+            if isinstance(c, types.CodeType):
+                out.extend(walk(c))
+            elif isinstance(c, str):
+                if c == doc or _is_message(c):
+                    continue
+                out.append(c)
+            elif isinstance(c, tuple):
+                out.append("(" + ",".join(str(x) for x in c) + ")")
+            else:
+                out.append(str(c))
+        return out
+    return walk(fn.__code__)
+
+
+def pin_defaults(fn):
+    fn = getattr(fn, "__func__", fn)
+    return [repr(x) for x in (fn.__defaults__ or ())] + ["%s=%r" % kv for kv in sorted((fn.__kwdefaults__ or {}).items())]
+
+
+def lean_list(name, xs):
+    from .common import tables as T
+    return "def %s : List String := [%s]" % (name, ", ".join(T.lean_strlit(x) for x in xs))
+
+
+def c13_tables():
+    from .common import tables as T
+    lit = T.lean_strlit
+    out = [
+        "def c13ReplacementsRe : String := %s" % lit(R._replacements_re.pattern),
+        "def c13ReplacementsReFlags : Nat := %d" % int(R._replacements_re.flags),
+        "def c13AsciiEscapes : List (String × Nat) := [%s]" % ", ".join("(%s, %d)" % (lit(k), ord(v))
+                                                                        for k, v in R._ascii_escapes.items()),
+        "def c13MaskConsts : List Nat := [%d, %d, %d]" % (R._MASK_O, R._MASK_B, R._MASK_I),
+    ]
+    for name, fn in [("c13ParseTemplateConsts", R._parse_template), ("c13GetSegmentsConsts", R._get_segments),
+                     ("c13ZeromapConsts", R._zeromap), ("c13InsertPartConsts", R._insert_part),
+                     ("c13ProcessMatchConsts", R._process_match),
+                     ("c13RuleApplyConsts", R._REPPRule._apply), ("c13MaskApplyConsts", R._REPPMask._apply),
+                     ("c13GroupApplyConsts", R._REPPGroup._apply), ("c13IterApplyConsts", R._REPPInternalGroup._apply),
+                     ("c13TraceConsts", R.REPP._trace),
+                     ("c13CheckMaskConsts", R._check_mask), ("c13MakeMaskInfoConsts", R._make_mask_info),
+                     ("c13GetMaskLenConsts", R._get_mask_len),
+                     ("c13ParseModuleConsts", R._parse_repp_module), ("c13RewriteRuleConsts", R._parse_rewrite_rule),
+                     ("c13GroupCallConsts", R._handle_group_call), ("c13InternalGroupConsts", R._handle_internal_group),
+                     
+                     ("c13ReppLinesConsts", R._repp_lines)]:
+        out.append(lean_list(name, pin_consts(fn)))
+    for name, fn in [("c13ApplyDefaults", R.REPP.apply), ("c13TraceDefaults", R.REPP.trace),
+                     ("c13FromStringDefaults", R.REPP.from_string), ("c13FromFileDefaults", R.REPP.from_file),
+                     ("c13InitDefaults", R.REPP.__init__)]:
+        out.append(lean_list(name, pin_defaults(fn)))
+    return out
+
+
+def c14_tables():
+    from .common import tables as T
+    from delphin import tokens as TK, lnk as LK
+    lit = T.lean_strlit
+    out = [
+        "def c14DefaultTokenizer : String := %s" % lit(R.DEFAULT_TOKENIZER),
+        "def c14YyRe : String := %s" % lit(TK._yy_re.pattern),
+        "def c14YyReFlags : Nat := %d" % int(TK._yy_re.flags),
+        "def c14UnescapeDotall : Bool := %s" % ("true" if TK._unescape("\\\n") == "\n" else "false"),
+    ]
+    for name, fn in [("c14MergemapConsts", R._mergemap), ("c14ZeromapConsts", R._zeromap), ("c14TraceConsts", R.REPP._trace),
+                     ("c14InsertPartConsts", R._insert_part),
+                     ("c14ProcessMatchConsts", R._process_match), ("c14RuleApplyConsts", R._REPPRule._apply),
+                     ("c14TokenizeConsts", R._tokenize), ("c14TokenizeResultConsts", R.REPP.tokenize_result),
+                     ("c14TokenizeMethodConsts", R.REPP.tokenize),
+                     ("c14EscapeConsts", TK._escape), ("c14UnescapeConsts", TK._unescape),
+                     ("c14YYStrConsts", TK.YYToken.__str__), ("c14FromStringConsts", TK.YYTokenLattice.from_string),
+                     ("c14LatticeStrConsts", TK.YYTokenLattice.__str__), ("c14LnkStrConsts", LK.Lnk.__str__),
+                     ("c14LnkBoolConsts", LK.Lnk.__bool__)]:
+        out.append(lean_list(name, pin_consts(fn)))
+    for name, fn in [("c14TokenizeDefaults", R.REPP.tokenize), ("c14TokenizeResultDefaults", R.REPP.tokenize_result),
+                     ("c14YYTokenNewDefaults", TK.YYToken.__new__)]:
+        out.append(lean_list(name, pin_defaults(fn)))
+    return out
+
+
 class C13(Check):
     pid = "C13"
     driver = "Verif/C13/Driver.lean"
@@ -1035,6 +1297,10 @@ class C13(Check):
 
     def extra_evidence(self):
         return {"diverging_skipped": self.diverging, "regex_module": "stdlib re"}
+
+    def tables(self):
+        """Pins: constants of the anchored code that the hand-written models mirror (see c13_pins in Props.lean)"""
+        return c13_tables()
 
     # ---- cases
     modes = None
@@ -1294,7 +1560,7 @@ class C13(Check):
         if own:
             self.setup()
         try:
-            return observe(c, self.tmp)
+            return observe(c, self.tmp, battery=False)
         finally:
             if own:
                 self.teardown()
@@ -1374,6 +1640,7 @@ class C13(Check):
                 a, b = INIT(len(s))
                 if got != s or run["startmap"] != a or run["endmap"] != b:
                     fail("no applicable rule, but the module does not return its input unchanged", repr((s, got)))
+        fails.extend(obs.get("purity", []))
         # variants of the same program must behave identically
         base = strip_obs(obs)
         if has_kind(case["prog"], "incl"):
@@ -1461,6 +1728,7 @@ class C13(Check):
             n, out = len(s), uncps(run["string"])
             if len(run["startmap"]) != len(out) + 2 or len(run["endmap"]) != len(out) + 2:
                 fail("offset maps do not have one entry per output position plus two sentinels", repr((s, out)))
+        fails.extend(obs.get("purity", []))
         return fails
 
     def oracle_load(self, case, res):
